@@ -158,6 +158,11 @@ func Resolve(holderDoc, ref string) (Pos, error) {
 	frag := t.Fragment
 	t.Fragment = ""
 	t.RawFragment = ""
+	// scheme-based normalisation (RFC 3986 6.2.2.1, 6.2.3): host in lower case, default port dropped
+	t.Host = strings.ToLower(t.Host)
+	if (t.Scheme == "http" && strings.HasSuffix(t.Host, ":80")) || (t.Scheme == "https" && strings.HasSuffix(t.Host, ":443")) {
+		t.Host = t.Host[:strings.LastIndex(t.Host, ":")]
+	}
 	return Pos{Doc: t.String(), Ptr: frag}, nil
 }
 
